@@ -1068,6 +1068,148 @@ theorem single_agrees (H : Hashes) (S : List Frame → List Frame) (get : Store)
   simp only [h1, if_true, hp]
   rfl
 
+theorem finish_ne_fuel (H : Hashes) (first : Frame) (fs : List Frame) : finish H first fs ≠ .err .fuel := by
+  unfold finish
+  generalize (match first.total with
+    | some t => decide ((fs.length : Int) = t)
+    | none => true) = cnt
+  cases cnt with
+  | false => simp
+  | true =>
+    simp only [if_true]
+    cases first.hash with
+    | none => simp
+    | some h => simp only; split <;> simp
+
+/-! ## the fuel is sufficient: with more fuel than frames in the store, `fuel` means a cycle -/
+
+/-- a chain of links followed from a frame -/
+inductive Path (get : Store) : Frame → List Cid → Frame → Prop
+  | nil (f : Frame) : Path get f [] f
+  | cons {f h g : Frame} {c : Cid} {cs : List Cid} :
+      c ∈ f.next → get c = some h → Path get h cs g → Path get f (c :: cs) g
+
+theorem gather_err_mem (g : Cid → Res (List Frame)) (l : List Cid) (e : Err) (h : gather g l = .err e) :
+    ∃ c ∈ l, g c = .err e := by
+  induction l with
+  | nil => simp [gather] at h
+  | cons x xs ih =>
+    unfold gather at h
+    cases h1 : g x with
+    | err e' =>
+      rw [h1] at h; injection h with h; subst h
+      exact ⟨x, List.mem_cons_self .., h1⟩
+    | ok a =>
+      rw [h1] at h; simp only at h
+      cases h2 : gather g xs with
+      | err e' =>
+        rw [h2] at h; injection h with h; subst h
+        obtain ⟨c, hc, hg⟩ := ih h2
+        exact ⟨c, List.mem_cons_of_mem _ hc, hg⟩
+      | ok b => rw [h2] at h; cases h
+
+theorem walk_fuel_path (get : Store) (n : Nat) (f : Frame) (h : walk get n f = .err .fuel) :
+    ∃ cs g, cs.length = n ∧ Path get f cs g := by
+  induction n generalizing f with
+  | zero => exact ⟨[], f, rfl, Path.nil f⟩
+  | succ n ih =>
+    unfold walk at h
+    cases h1 : gather (fetch get fun g => walk get n g) f.next with
+    | ok r => rw [h1] at h; cases h
+    | err e =>
+      rw [h1] at h; injection h with h; subst h
+      obtain ⟨c, hc, hg⟩ := gather_err_mem _ _ _ h1
+      unfold fetch at hg
+      cases hgc : get c with
+      | none => rw [hgc] at hg; cases hg
+      | some g' =>
+        rw [hgc] at hg
+        obtain ⟨cs, g, hlen, hp⟩ := ih g' hg
+        exact ⟨c :: cs, g, by simp [hlen], Path.cons hc hgc hp⟩
+
+theorem Path.split {get : Store} {f g : Frame} (a b : List Cid) (h : Path get f (a ++ b) g) :
+    ∃ m, Path get f a m ∧ Path get m b g := by
+  induction a generalizing f with
+  | nil => exact ⟨f, Path.nil f, h⟩
+  | cons c a ih =>
+    cases h with
+    | cons hc hg hp =>
+      obtain ⟨m, h1, h2⟩ := ih hp
+      exact ⟨m, Path.cons hc hg h1, h2⟩
+
+theorem Path.reach {get : Store} {f g : Frame} {cs : List Cid} (h : Path get f cs g) (hne : cs ≠ []) :
+    Reach get f g := by
+  induction h with
+  | nil f => exact absurd rfl hne
+  | @cons f h' g c cs hc hg hp ih =>
+    cases cs with
+    | nil => cases hp; exact Reach.step hc hg
+    | cons x xs => exact Reach.trans (Reach.step hc hg) (ih (by simp))
+
+theorem Path.last {get : Store} {f m : Frame} (a : List Cid) (c : Cid) (h : Path get f (a ++ [c]) m) :
+    get c = some m := by
+  induction a generalizing f with
+  | nil =>
+    cases h with
+    | cons hc hg hp => cases hp; exact hg
+  | cons x a ih =>
+    cases h with
+    | cons hc hg hp => exact ih hp
+
+theorem Path.mem_dom {get : Store} {f g : Frame} {cs : List Cid} (h : Path get f cs g) :
+    ∀ c ∈ cs, get c ≠ none := by
+  induction h with
+  | nil f => intro c hc; cases hc
+  | @cons f h' g c cs hc hg hp ih =>
+    intro x hx
+    rcases List.mem_cons.mp hx with e | e
+    · subst e; rw [hg]; simp
+    · exact ih x e
+
+theorem nodup_length_le (cs D : List Nat) (hn : cs.Nodup) (hs : ∀ c ∈ cs, c ∈ D) : cs.length ≤ D.length := by
+  induction cs generalizing D with
+  | nil => simp
+  | cons c cs ih =>
+    have hc := List.nodup_cons.mp hn
+    have hcD : c ∈ D := hs c (List.mem_cons_self ..)
+    have := ih (D.erase c) hc.2 (fun x hx => by
+      have hne : x ≠ c := fun e => hc.1 (e ▸ hx)
+      exact (List.mem_erase_of_ne hne).mpr (hs x (List.mem_cons_of_mem _ hx)))
+    rw [List.length_erase_of_mem hcD] at this
+    have hpos : 0 < D.length := List.length_pos_of_mem hcD
+    simp only [List.length_cons]; omega
+
+theorem exists_dup (cs : List Nat) (h : ¬ cs.Nodup) : ∃ a c b d, cs = a ++ c :: (b ++ c :: d) := by
+  induction cs with
+  | nil => exact absurd List.nodup_nil h
+  | cons x xs ih =>
+    by_cases hx : x ∈ xs
+    · obtain ⟨b, d, rfl⟩ := List.append_of_mem hx
+      exact ⟨[], x, b, d, rfl⟩
+    · have : ¬ xs.Nodup := fun hn => h (List.nodup_cons.mpr ⟨hx, hn⟩)
+      obtain ⟨a, c, b, d, rfl⟩ := ih this
+      exact ⟨x :: a, c, b, d, rfl⟩
+
+/-- If the store holds at most `D.length` frames and the walk still runs out of more fuel than that, some
+frame below the first one reaches itself: the Go recursion does not return on this graph. -/
+theorem fuel_exhausted_cyclic (get : Store) (D : List Cid) (hD : ∀ c, get c ≠ none → c ∈ D)
+    (n : Nat) (hn : D.length < n) (f : Frame) (h : walk get n f = .err .fuel) :
+    ∃ g, Reach get f g ∧ Reach get g g := by
+  obtain ⟨cs, g, hlen, hp⟩ := walk_fuel_path get n f h
+  have hsub : ∀ c ∈ cs, c ∈ D := fun c hc => hD c (hp.mem_dom c hc)
+  have hnd : ¬ cs.Nodup := fun hnd => by
+    have := nodup_length_le cs D hnd hsub; omega
+  obtain ⟨a, c, b, d, rfl⟩ := exists_dup cs hnd
+  have e : a ++ c :: (b ++ c :: d) = (a ++ [c]) ++ ((b ++ [c]) ++ d) := by simp
+  rw [e] at hp
+  obtain ⟨m1, hp1, hp2⟩ := Path.split _ _ hp
+  obtain ⟨m2, hp3, _⟩ := Path.split _ _ hp2
+  have h1 := Path.last a c hp1
+  have h2 := Path.last b c hp3
+  have : m1 = m2 := by rw [h1] at h2; injection h2
+  subst this
+  exact ⟨m1, hp1.reach (by simp), hp3.reach (by simp)⟩
+
 /-! ## the checksums of `ipldbindcode/methods.go`, executable (used by the driver; opaque in the theorems) -/
 
 namespace Real
